@@ -262,6 +262,36 @@ CLAIMED = {
         "permitted, not a required outcome; one lattice data set per grid point.",
         "TLA+ decision-table model checked with TLC + grid replay + TLC-validated outputs",
     ),
+    "C04": (
+        "7/C04",
+        "FormatsDefs.tla (WFChange, WFAnomSeq, WFCapaLengths, WFInside, WFCols), Trace_Formats.tla; invariants of "
+        "Pelt.tla, Capa.tla, SeededBinseg.tla, MovingWindow.tla, Anomaliser.tla",
+        "The well-formedness conjuncts are TLC-checked invariants of the terminal states of the algorithm "
+        "models (segments >= M after back-tracking; CAPA lengths in [M, Mx] or 1, disjoint, inside the data; "
+        "greedy picks M apart / disjoint and strictly inside; moving-window peaks inside [b, n-b]), over every "
+        "enumerated table; predict outputs of all seven detectors over the zoo's configurations (incl. the "
+        "boundary values) x seven lattice data shapes x n from the minimum length up x p in 1..4 are projected "
+        "and validated by TLC against the same predicates (Trace_Formats OutputVerdict); C14 sends the OK "
+        "outputs of its whole configuration grid through the same validator.",
+        "Frame-level facts (RangeIndex 0..K-1, int64, left-closed IntervalIndex, labels 1..K) are read off by the "
+        "projection function and passed as booleans; sampled (seeded) data for stage C.",
+        "TLA+ invariants of the algorithm models checked with TLC + TLC-validated recorded outputs",
+    ),
+    "C12": (
+        "7/C12",
+        "CostsDefs.tla, Costs.tla (Symmetries), Pelt.tla (OptReversal), Trace_Symmetry.tla",
+        "TLC checks in exact arithmetic on every lattice matrix that time reversal maps the statistics of "
+        "[s,e) to those of [n-e,n-s), that per-column shifts leave all centred second moments unchanged, that a "
+        "scale c multiplies them by c^2 and that column permutations permute them, and on every table that the "
+        "optimal penalised cost of the reversed table is unchanged; pairs of runs on X and the transformed X "
+        "(column permutation, shift, scale 2/3/0.5, reversal) for ten scorers and thirteen detector "
+        "configurations (incl. MVCAPA with non-constant point penalties) are related by TLC: values always, "
+        "detections (with MVCAPA's columns mapped back) unless only a rounding-level tie decides.",
+        "Data with distinct values per column (the variance floor is not scale covariant); the cancellation of "
+        "the logarithmic terms under scaling is the module's pencil-and-paper step; moving-window reversal is "
+        "C08's.",
+        "TLA+ exact symmetry lemmas checked with TLC + TLC-validated pairs of runs",
+    ),
 }
 
 NOT_YET = {}
